@@ -43,15 +43,20 @@ pub open spec fn is_limit(e: SvgdxError) -> bool {
 /// outcome of one generate_events call
 pub enum Outcome { Done(Option<BoundingBox>), LimitErr, OtherErr }
 pub struct Gen { pub tag: Tag, pub outcome: Outcome }
-pub struct TransformerContext { pub in_specs: bool, pub tr: Ghost<Seq<Gen>>, pub rest: CtxRest }
+/// ghost: `tr` = generate_events calls in order; `registered` = elements passed to update_element, in order
+pub struct TransformerContext { pub in_specs: bool, pub tr: Ghost<Seq<Gen>>, pub registered: Ghost<Seq<SvgElement>>, pub rest: CtxRest }
+pub uninterp spec fn tag_el(t: Tag) -> Option<SvgElement>;
 
 pub uninterp spec fn union_spec(s: Seq<BoundingBox>) -> Option<BoundingBox>;
 
 impl Tag {
     #[verifier::external_body]
-    pub fn get_element(&self) -> Option<SvgElement> { unimplemented!() }
+    pub fn get_element(&self) -> (r: Option<SvgElement>) ensures r == tag_el(*self) { unimplemented!() }
     #[verifier::external_body]
     pub fn generate_events(&self, context: &mut TransformerContext) -> (r: Result<(OutputList, Option<BoundingBox>)>)
+        requires
+            tag_el(*self) is Some ==> old(context).registered@.len() > 0
+                && old(context).registered@.last() == tag_el(*self)->Some_0,     // the element AS WRITTEN is registered (first registration = template for reuse) before it is evaluated, inside and outside <specs> @C18.template.registered_as_written
         ensures
             final(context).in_specs == old(context).in_specs,
             final(context).tr@ == old(context).tr@.push(Gen { tag: *self, outcome: match r {
@@ -62,7 +67,7 @@ impl Tag {
 impl TransformerContext {
     #[verifier::external_body]
     pub fn update_element(&mut self, el: &SvgElement)
-        ensures final(self).in_specs == old(self).in_specs, final(self).tr == old(self).tr
+        ensures final(self).in_specs == old(self).in_specs, final(self).tr == old(self).tr, final(self).registered@ == old(self).registered@.push(*el)
     { unimplemented!() }
 }
 impl OutputList { #[verifier::external_body] pub fn is_empty(&self) -> bool { unimplemented!() } }
